@@ -614,7 +614,10 @@ def it_next(E, st, fr, bi, it):
         for item, ni, s2 in it_next(E, st, fr, bi, sub):
             d = dict(it.d)
             d["pos"] = ni.d["pos"]
-            outs.append((None if item is None else E.ctx.mk_int(s2, 0, 1, E.ctx.bool_ty(), taint=True), Md("iter", d), s2))
+            kb = None
+            if item is not None and it.d.get("src") is not None:
+                kb = known_bit(E, s2, Md("bitvec", {"src": it.d["src"]}), item)
+            outs.append((None if item is None else E.ctx.mk_int(s2, 0 if kb is None else kb, 1 if kb is None else kb, E.ctx.bool_ty(), taint=True), Md("iter", d), s2))
         return outs
     if k == "opaque":
         s2 = st.copy()
@@ -1301,7 +1304,10 @@ def m_bitvec_append(E, st, fr, bi, callee, args, dest_ty):
 
 def m_bitvec_iter(E, st, fr, bi, callee, args, dest_ty):
     b = deref2(E, st, args[0])
-    return ret1(Md("iter", {"k": "bits", "pos": usize(E, st, 0), "end": b.d["len"]}), st)
+    d = {"k": "bits", "pos": usize(E, st, 0), "end": b.d["len"]}
+    if b.d.get("src") is not None:
+        d["src"] = b.d["src"]
+    return ret1(Md("iter", d), st)
 
 
 def m_bitvec_to_bytes(E, st, fr, bi, callee, args, dest_ty):
